@@ -278,6 +278,9 @@ impl Property for C04 {
             if rng.chance(1, 5) {
                 crate::producer::plant_ext_inst(rng, &mut stream);
             }
+            if rng.chance(1, 5) {
+                crate::producer::plant_late_type(rng, &mut stream);
+            }
             let n = rng.below(5) as usize;
             let faults = if n == 0 { vec![] } else { faults::gen_faults(rng, &stream, n, faults::ALL_FAULTS) };
             (Source::Stream(stream), faults)
@@ -470,4 +473,125 @@ impl Property for C04 {
     fn crash_is_violation() -> bool {
         true
     }
+}
+
+// ---------------------------------------------------------------------------
+// Miri lane (thorough tier): undefined behaviour that does not trap natively
+// (invalid enum transmutes, misaligned or out-of-bounds reads through the unsafe
+// slice reinterpretation in parse_words).  Self-contained on purpose: no
+// snapshot, no worker processes, no guard pages - Miri is the oracle.
+
+struct Counting(usize);
+impl rspirv::binary::Consumer for Counting {
+    fn initialize(&mut self) -> rspirv::binary::ParseAction {
+        rspirv::binary::ParseAction::Continue
+    }
+    fn finalize(&mut self) -> rspirv::binary::ParseAction {
+        rspirv::binary::ParseAction::Continue
+    }
+    fn consume_header(&mut self, _h: dr::ModuleHeader) -> rspirv::binary::ParseAction {
+        rspirv::binary::ParseAction::Continue
+    }
+    fn consume_instruction(&mut self, _i: dr::Instruction) -> rspirv::binary::ParseAction {
+        self.0 += 1;
+        rspirv::binary::ParseAction::Continue
+    }
+}
+
+pub fn miri_lane(start: u64, count: u64) -> i32 {
+    use rspirv::grammar::{CoreInstructionTable, OperandKind, OperandQuantifier};
+    let seed = crate::runner::seed_from_env();
+    let table: Vec<&'static rspirv::grammar::Instruction<'static>> = CoreInstructionTable::iter().collect();
+    let mut accepted = 0u64;
+    for run in start..start + count {
+        println!("MIRI-RUN {}", run);
+        let mut rng = Rng::new(crate::rng::mix(seed, crate::rng::fnv("C04-miri"), run));
+        let mut w: Vec<u32> = vec![MAGIC, 0x0001_0000 | ((rng.below(7) as u32) << 8), rng.word(), 64, 0];
+        // most bodies sit inside one function/block so that the loader accepts the module
+        let wrapped = rng.chance(3, 4);
+        if wrapped {
+            w.extend_from_slice(&[(5 << 16) | 54, 1, 2, 0, 3, (2 << 16) | 248, 4]);
+        }
+        for _ in 0..rng.range(1, 8) {
+            let g = table[rng.usize_below(table.len())];
+            let at = w.len();
+            w.push(0);
+            for op in g.operands {
+                let reps = match op.quantifier {
+                    OperandQuantifier::One => 1,
+                    OperandQuantifier::ZeroOrOne => rng.below(2),
+                    OperandQuantifier::ZeroOrMore => rng.below(3),
+                };
+                for _ in 0..reps {
+                    match op.kind {
+                        OperandKind::LiteralString => {
+                            let n = rng.below(7) as usize;
+                            let mut b: Vec<u8> = (0..n).map(|_| b'a' + rng.below(26) as u8).collect();
+                            b.push(0);
+                            while b.len() % 4 != 0 {
+                                b.push(0);
+                            }
+                            for c in b.chunks(4) {
+                                w.push(u32::from_le_bytes([c[0], c[1], c[2], c[3]]));
+                            }
+                        }
+                        OperandKind::IdResultType | OperandKind::IdResult | OperandKind::IdRef | OperandKind::IdScope | OperandKind::IdMemorySemantics => w.push(rng.range(1, 40) as u32),
+                        // enumerants, masks, literals: small numbers (often valid), boundary values, or junk
+                        _ => w.push(match rng.below(10) {
+                            0 => rng.word(),
+                            1 => 1 << rng.below(20),
+                            2 => 4000 + rng.below(2600) as u32,
+                            3 => rng.below(48) as u32,
+                            _ => rng.below(6) as u32,
+                        }),
+                    }
+                }
+            }
+            let wc = (w.len() - at) as u32;
+            w[at] = (wc << 16) | (g.opcode as u32);
+        }
+        if wrapped {
+            w.extend_from_slice(&[(1 << 16) | 253, (1 << 16) | 56]);
+        }
+        // storage faults (half of the runs stay clean so that whole modules get through)
+        let nfaults = if rng.chance(1, 2) { 0 } else { rng.range(1, 2) };
+        for _ in 0..nfaults {
+            let i = rng.usize_below(w.len());
+            match rng.below(3) {
+                0 => w[i] ^= 1 << rng.below(32),
+                1 => w[i] = rng.word(),
+                _ => w[i] = (w[i] & 0xffff) | ((rng.below(12) as u32) << 16),
+            }
+        }
+        let mut bytes = words_to_bytes(&w);
+        if nfaults > 0 && rng.chance(1, 3) {
+            let k = rng.usize_below(bytes.len() + 1);
+            bytes.truncate(k);
+        }
+        let gb = GuardedBuf::new(&bytes, true);
+        let mut c = Counting(0);
+        let _ = parse_bytes(gb.bytes(), &mut c);
+        if let Some(ws) = gb.words() {
+            let mut c2 = Counting(0);
+            let _ = parse_words(ws, &mut c2);
+        }
+        // deliberately also an UNALIGNED byte view (offset 1 into a larger buffer)
+        let mut shifted = vec![0u8; bytes.len() + 1];
+        shifted[1..].copy_from_slice(&bytes);
+        let _ = parse_bytes(&shifted[1..], &mut Counting(0));
+        if let Ok(m) = dr::load_bytes(gb.bytes()) {
+            accepted += 1;
+            let asm = m.assemble();
+            let _ = m.disassemble();
+            let _ = dr::load_words(&asm);
+        }
+        // a few typed decoder requests straight on the buffer
+        let mut d = Decoder::new(gb.bytes());
+        for _ in 0..6 {
+            let _ = decode_typed(&mut d, rng.usize_below(TYPED_KINDS.len()));
+            let _ = d.string();
+        }
+    }
+    println!("[C04] miri lane: runs {}..{} completed, {} modules accepted, no undefined behaviour reported", start, start + count, accepted);
+    0
 }
